@@ -116,7 +116,9 @@ def rule_replace_refs(ctx):
                                                                  and norm(c.args[0]) == f.params[0] for c in ast.walk(n.ast))}
     ctx.require(setters, rule, f.qname, "no setattr(self, attr, ...)")
     # the `o is None` branch needs no store: avoid its T successor
-    none_tests = [n for n in cfg.nodes if n.kind == "test" and norm(n.ast) in ("o is None", "o == None")]
+    got = [norm(n.targets[0]) for n in own_nodes(f.node) if isinstance(n, ast.Assign) and isinstance(n.value, ast.Call) and norm(n.value.func) == "getattr"
+           and len(n.targets) == 1]
+    none_tests = [n for n in cfg.nodes if n.kind == "test" and any(norm(n.ast) in (f"{v} is None", f"{v} == None") for v in got)]
     skip = {m for t in none_tests for m, l in t.succ if l == "T"}
     body_entry = [m for m, l in head.succ if l == "T"]
     ctx.require(body_entry, rule, f.qname, "loop body not found")
@@ -172,12 +174,21 @@ def rule_pickup_source(ctx):
                    "depends on the cumulative array y (through an interpolator over x, y) and on both ends of the first measure")
     f = ctx.prog.func("partitura.score:Part._time_interpolator", rule)
     defs = local_defs(f)
-    ad = defs.get("actual_dur", [])
-    ctx.require(len(ad) == 1, rule, f.qname, "definition of actual_dur not found")
+    # by role: the value subtracted from the cumulative array under `if actual < normal`
+    shift = [n for n in own_nodes(f.node) if isinstance(n, ast.AugAssign) and isinstance(n.target, ast.Name) and isinstance(n.op, ast.Sub)
+             and isinstance(n.value, ast.Name) and isinstance(getattr(n, "_parent", None), ast.If)]
+    if len(shift) != 1:
+        return  # the PICKUP rule reports the missing shift
+    yv, adv = shift[0].target.id, shift[0].value.id
+    ad = [v for v in defs.get(adv, []) if v is not shift[0].value]
+    ctx.require(len(ad) == 1, rule, f.qname, "definition of the actual first-measure duration not found")
+    mvars = [k for k, vs in defs.items() for v in vs if "iter_starting(Measure)" in norm(v)]
+    ctx.require(len(mvars) == 1, rule, f.qname, "first-measure variable not found")
+    mv = mvars[0]
     dep = depends_on(ad[0], defs)
-    ok = "y" in dep and "x" in dep and "m1.start.t" in dep and "m1.end.t" in dep
-    ctx.check(ok, rule, "actual_dur = map(m1.end) - map(m1.start)", func=f, node=ad[0], construct="pickup-not-measured-on-map",
-              msg=f"`actual_dur = {norm(ad[0])[:80]}` does not depend on the cumulative map (x, y) evaluated at both ends of the first measure: a "
+    ok = yv in dep and f"{mv}.start.t" in dep and f"{mv}.end.t" in dep
+    ctx.check(ok, rule, "actual duration = map(measure end) - map(measure start)", func=f, node=ad[0], construct="pickup-not-measured-on-map",
+              msg=f"`{adv} = {norm(ad[0])[:80]}` does not depend on the cumulative map `{yv}` evaluated at both ends of the first measure: a "
                   f"division or signature change inside the first measure is ignored, the pickup is mis-detected and zero lands elsewhere")
 
 
@@ -380,15 +391,21 @@ def rule_min_one_frame(ctx):
     ctx.rule(rule, "_make_pianoroll: the offset column used to fill cells is lower-bounded by onset + 1 *after* the note-separation "
                    "frame is subtracted (never less than one frame)")
     f = ctx.prog.func("partitura.utils.music:_make_pianoroll", rule)
-    stmts = [s for s in own_statements(f.node.body) if isinstance(s, ast.Assign) and len(s.targets) == 1 and norm(s.targets[0]) == "pr_offset"]
-    ctx.require(stmts, rule, f.qname, "definitions of pr_offset not found")
+    # by role: onset frames = round(time_div * onset).astype(int); offset frames = <onset frames> + <duration frames>
+    defs = local_defs(f)
+    offs = [k for k, vs in defs.items() for v in vs if isinstance(v, ast.BinOp) and isinstance(v.op, ast.Add) and isinstance(v.left, ast.Name)
+            and isinstance(v.right, ast.Name) and any("clip" in norm(d) for d in defs.get(v.right.id, []))]
+    ctx.require(len(offs) == 1, rule, f.qname, "offset-frame variable not found")
+    off = offs[0]
+    on = next(v.left.id for v in defs[off] if isinstance(v, ast.BinOp) and isinstance(v.op, ast.Add))
+    stmts = [s_ for s_ in own_statements(f.node.body) if isinstance(s_, ast.Assign) and len(s_.targets) == 1 and norm(s_.targets[0]) == off]
     last = stmts[-1]
     v = last.value
 
     def clamps(e):
-        return isinstance(e, ast.Call) and ((norm(e.func) in ("np.maximum", "numpy.maximum") and any("pr_onset + 1" in norm(a) or "1 + pr_onset" in norm(a) for a in e.args))
+        return isinstance(e, ast.Call) and ((norm(e.func) in ("np.maximum", "numpy.maximum") and any(norm(a) in (f"{on} + 1", f"1 + {on}") for a in e.args))
                                             or (norm(e.func) in ("np.clip", "numpy.clip") and any(k.arg == "a_min" for k in e.keywords)))
-    subtracts = any(isinstance(b, ast.BinOp) and isinstance(b.op, ast.Sub) and "pr_offset" in norm(b.left) for s in stmts for b in ast.walk(s.value))
+    subtracts = any(isinstance(b, ast.BinOp) and isinstance(b.op, ast.Sub) and off in norm(b.left) for s_ in stmts for b in ast.walk(s_.value))
     ok = clamps(v) or not subtracts
     ctx.check(ok, rule, "offset >= onset + 1 after the separation frame", func=f, node=last, construct="offset-unclamped-after-subtraction",
               msg=f"the last definition `{norm(last)[:80]}` subtracts the separation frame without re-imposing offset >= onset + 1: a note of one "
@@ -403,11 +420,22 @@ def rule_offset_table_is_max(ctx):
                    "each part — max(...) over the part's distinct numbers — not their count")
     f = ctx.prog.func("partitura.score:merge_parts", rule)
     defs = local_defs(f)
-    for tab in ("maximum_voices", "maximum_staves"):
+    # by role: the tables T used as sum(T[:p_ind]) in the offset terms
+    tabs = set()
+    for c in own_nodes(f.node):
+        if isinstance(c, ast.Call) and norm(c.func) == "sum" and c.args and isinstance(c.args[0], ast.Subscript) and isinstance(c.args[0].slice, ast.Slice) \
+                and isinstance(c.args[0].value, ast.Name) and c.args[0].slice.lower is None:
+            tabs.add(c.args[0].value.id)
+    tabs = {t for t in tabs if any(isinstance(d, ast.ListComp) and not (isinstance(d.elt, ast.Call) and norm(d.elt.func) == "len" and False) for d in defs.get(t, []))}
+    ctx.require(len(tabs) >= 2, rule, f.qname, f"offset tables not found: {tabs}")
+    for tab in sorted(tabs):
         d = defs.get(tab, [])
         ctx.require(len(d) == 1 and isinstance(d[0], ast.ListComp), rule, f.qname, f"definition of {tab} not found")
         elt = d[0].elt
         var = norm(d[0].generators[0].target)
+        src_ok = any(isinstance(x, ast.Call) and norm(x.func) in ("np.unique", "numpy.unique") for k in [norm(d[0].generators[0].iter)] for dd in defs.get(k, []) for x in ast.walk(dd))
+        if not src_ok:
+            continue  # not a table of distinct voice/staff numbers (e.g. the auto-mode staff counts)
         ok = isinstance(elt, ast.Call) and norm(elt.func) == "max" and elt.args and norm(elt.args[0]) == var
         ctx.check(ok, rule, f"{tab} = [max(numbers of the part) ...]", func=f, node=d[0], construct=f"offset-table-not-max:{tab}",
                   msg=f"`{tab} = {norm(d[0])[:70]}`: the offset of a later part must exceed the highest number used by the earlier parts; a count "
